@@ -673,6 +673,28 @@ class BuiltinMixin:
             r = getattr(lv, name)(*pyargs)
             yield self.py_to_val(tuple(r) if isinstance(r, list) else r), st
             return
+        if name == "partition" and len(args) == 1:
+            sep = self.deref(args[0], st)
+            ls = seqs.lit_value(sep) if isinstance(sep, VSeq) else None
+            if ls is not None and len(ls) == 1:
+                # str.partition(c) for a one-character separator (trusted built-in contract): split at the FIRST c
+                c = ord(ls)
+                n = vs.length()
+                j = z3.Int(fresh_name("pj"))
+                k = z3.Int(fresh_name("pk"))
+                s_found = st.copy()
+                s_found.assume(z3.And(0 <= k, k < n, seqs.seq_elem(vs, k) == c))
+                s_found.assume(z3.ForAll([j], z3.Implies(z3.And(0 <= j, j < k), seqs.seq_elem(vs, j) != c)))
+                ez = z3.IntSort()
+                facts: list = []
+                before = seqs.slice_(vs, z3.IntVal(0), k, facts, ez)
+                after = seqs.slice_(vs, k + 1, n, facts, ez)
+                for f in facts:
+                    s_found.assume(f)
+                yield VTuple([before, seqs.lit_str(ls), after]), s_found
+                st.assume(z3.ForAll([j], z3.Implies(z3.And(0 <= j, j < n), seqs.seq_elem(vs, j) != c)))
+                yield VTuple([vs, seqs.lit_str(""), seqs.lit_str("")]), st
+                return
         raise Unsupported(f"str.{name} on a symbolic string")
 
     def join_measures(self, sep: VSeq, parts: VSeq, st):
